@@ -328,38 +328,134 @@ func ruleC08Precommit(r *Run) {
 }
 
 // C08-END: every exit of a dispatched request passes the commit.
+// findFrame locates the function of the request core that installs the
+// deferred recovering closure (the "frame"), wherever a refactoring put it.
+func findFrame(w *World, cg *CallGraph) (frameFn *ssa.Function, deferIn *ssa.Defer, closure *ssa.Function, core map[*ssa.Function]bool) {
+	core = cg.Reach(w.Fn("rux", "Router.ServeHTTP"), w.Fn("rux", "Router.HandleContext"))
+	n := 0
+	for _, f := range sortFns(core) {
+		eachInstr(f, func(in ssa.Instruction) {
+			d, ok := in.(*ssa.Defer)
+			if !ok {
+				return
+			}
+			if mc, ok := d.Call.Value.(*ssa.MakeClosure); ok {
+				fn := mc.Fn.(*ssa.Function)
+				if len(callsRecover(fn)) > 0 {
+					frameFn, deferIn, closure = f, d, fn
+					n++
+				}
+			}
+		})
+	}
+	if n != 1 {
+		return nil, nil, nil, core
+	}
+	return
+}
+
+// commitsAlways: functions that pass the header commit on every path from entry to a normal return.
+func commitsAlways(w *World, m *rwModel) map[*ssa.Function]bool {
+	out := map[*ssa.Function]bool{}
+	for changed := true; changed; {
+		changed = false
+		for _, f := range w.Funcs {
+			if out[f] || f.Parent() != nil {
+				continue
+			}
+			hits := 0
+			ok, _ := allPathsHit(f, nil, func(in ssa.Instruction) bool {
+				c, isCall := in.(*ssa.Call)
+				if !isCall {
+					return false
+				}
+				if m.isCommitCall(in) || out[staticCallee(c)] {
+					hits++
+					return true
+				}
+				return false
+			})
+			if ok && hits > 0 {
+				out[f] = true
+				changed = true
+			}
+		}
+	}
+	return out
+}
+
+// C08-END: every exit of a dispatched request passes the commit.
 func ruleC08End(rule string) func(r *Run) {
 	return func(r *Run) {
 		w := r.W
 		r.Floor(rule, 2)
 		m := newRWModel(w)
-		disp := w.Fn("rux", "Router.handleHTTPRequest")
-		ok, bad := allPathsHit(disp, nil, m.isCommitCall)
-		d := "every normal return of the dispatcher passes ensureWriteHeader"
-		if !ok {
-			d = "a path reaches return at " + w.Pos(w.InstrPos(bad)) + " without committing the header"
-		}
-		r.Check(rule, "(*Router).handleHTTPRequest:normal exit", disp.Pos(), ok, d)
-		// and nothing user-visible runs after the last commit: no handler call after it
-		// recovered path
-		onPanicF := w.Field("rux", "Router", "OnPanic")
-		found := false
-		for _, cl := range disp.AnonFuncs {
-			hooks := callsIn(cl, func(c ssa.CallInstruction) bool {
-				return !c.Common().IsInvoke() && staticCallee(c) == nil && isLoadOfField(c.Common().Value, onPanicF)
-			})
-			for i, h := range hooks {
-				found = true
-				okH, badH := allPathsHit(cl, h, m.isCommitCall)
-				dd := "the recovered path commits the header after the panic hook ran"
-				if !okH {
-					dd = "recovered path returns at " + w.Pos(w.InstrPos(badH)) + " without committing: the status set by the hook is never sent (net/http answers 200)"
+		cg := w.BuildCG()
+		frameFn, _, cl, _ := findFrame(w, cg)
+		always := commitsAlways(w, m)
+		next := w.Fn("rux", "Context.Next")
+		// normal exit: each entry point hands the request to a dispatcher that commits on every path
+		for _, entry := range []*ssa.Function{w.Fn("rux", "Router.ServeHTTP"), w.Fn("rux", "Router.HandleContext")} {
+			n := 0
+			for _, c := range callsIn(entry, func(c ssa.CallInstruction) bool {
+				sc := staticCallee(c)
+				return sc != nil && w.InModule(sc) && cg.Reach(sc)[next]
+			}) {
+				n++
+				sc := staticCallee(c)
+				ok := always[sc]
+				d := "every normal return of the dispatcher " + FuncName(sc) + " passes ensureWriteHeader"
+				if !ok {
+					_, bad := allPathsHit(sc, nil, func(in ssa.Instruction) bool {
+						cc, isCall := in.(*ssa.Call)
+						return isCall && (m.isCommitCall(in) || always[staticCallee(cc)])
+					})
+					d = "a path of " + FuncName(sc) + " reaches return at " + w.Pos(w.InstrPos(bad)) + " without committing the header (a request whose handlers write nothing is answered by net/http's implicit 200, the recorded status is lost)"
 				}
-				r.Check(rule, fmt.Sprintf("(*Router).handleHTTPRequest:recovered exit#%d", i+1), w.InstrPos(h), okH, dd)
+				r.Check(rule, fmt.Sprintf("%s:normal exit#%d", FuncName(entry), n), w.InstrPos(c), ok, d)
 			}
+			r.Exists(rule, FuncName(entry)+":dispatches", entry.Pos(), n >= 1, fmt.Sprintf("%d dispatcher call(s)", n))
 		}
-		if !found {
-			r.Undecided(rule, "(*Router).handleHTTPRequest:recovered exit", disp.Pos(), "no call of the OnPanic hook found in a deferred closure of the dispatcher")
+		// recovered exit
+		if frameFn == nil {
+			r.Undecided(rule, "recovered exit", token.NoPos, "no unique deferred recovering closure in the request core")
+			return
+		}
+		onPanicF := w.Field("rux", "Router", "OnPanic")
+		hooks := callsIn(cl, func(c ssa.CallInstruction) bool {
+			return !c.Common().IsInvoke() && staticCallee(c) == nil && isLoadOfField(c.Common().Value, onPanicF)
+		})
+		if len(hooks) == 0 {
+			r.Undecided(rule, FuncName(frameFn)+":recovered exit", frameFn.Pos(), "no call of the OnPanic hook in the recovering closure")
+			return
+		}
+		for i, h := range hooks {
+			okH, badH := allPathsHit(cl, h, m.isCommitCall)
+			where := "the recovering closure commits the header after the panic hook ran"
+			if !okH {
+				// a recovered panic makes the frame function return normally: its callers may commit instead
+				callersOK, ncall := true, 0
+				for _, g := range w.Funcs {
+					for _, c := range callsToFn(g, frameFn) {
+						ncall++
+						okC, _ := allPathsHit(g, c, func(in ssa.Instruction) bool {
+							cc, isCall := in.(*ssa.Call)
+							return isCall && (m.isCommitCall(in) || always[staticCallee(cc)])
+						})
+						if !okC {
+							callersOK = false
+						}
+					}
+				}
+				if callersOK && ncall > 0 {
+					okH = true
+					where = "after a recovered panic " + FuncName(frameFn) + " returns normally and every caller commits the header afterwards"
+				}
+			}
+			if !okH {
+				where = "recovered path returns at " + w.Pos(w.InstrPos(badH)) + " without committing: the status set by the hook is never sent (net/http answers 200)"
+			}
+			r.Check(rule, fmt.Sprintf("%s:recovered exit#%d", FuncName(frameFn), i+1), w.InstrPos(h), okH, where)
 		}
 	}
 }
@@ -513,28 +609,72 @@ func ruleC09Frame(r *Run) {
 	w := r.W
 	rule := "C09-FRAME"
 	r.Floor(rule, 6)
-	disp := w.Fn("rux", "Router.handleHTTPRequest")
 	onPanicF := w.Field("rux", "Router", "OnPanic")
-	onErrorF := w.Field("rux", "Router", "OnError")
-	_ = onErrorF
-	// the deferred recovering closure
-	var deferIn *ssa.Defer
-	var cl *ssa.Function
-	eachInstr(disp, func(in ssa.Instruction) {
-		d, ok := in.(*ssa.Defer)
-		if !ok {
-			return
+	cg := w.BuildCG()
+	disp, deferIn, cl, core := findFrame(w, cg)
+	if deferIn == nil {
+		r.Check(rule, "request core:recover frame", token.NoPos, false, "no (unique) deferred recovering closure in the request core: a handler panic escapes ServeHTTP even with OnPanic set")
+		return
+	}
+	// functions of the core that can run user code: dynamic calls of handler values / hooks, transitively
+	userFn := map[*ssa.Function]bool{}
+	isDynUser := func(c ssa.CallInstruction) bool {
+		if _, isDefer := c.(*ssa.Defer); isDefer {
+			return false
 		}
-		if mc, ok := d.Call.Value.(*ssa.MakeClosure); ok {
-			fn := mc.Fn.(*ssa.Function)
-			if len(callsRecover(fn)) > 0 {
-				deferIn, cl = d, fn
+		return !c.Common().IsInvoke() && staticCallee(c) == nil && calleeName(c) == ""
+	}
+	for f := range core {
+		if f == cl {
+			continue
+		}
+		if len(callsIn(f, isDynUser)) > 0 {
+			userFn[f] = true
+		}
+	}
+	for changed := true; changed; {
+		changed = false
+		for f := range core {
+			if userFn[f] || f == cl {
+				continue
+			}
+			for _, t := range cg.Edges[f] {
+				if userFn[t] && t != cl {
+					userFn[f] = true
+					changed = true
+				}
 			}
 		}
-	})
-	if deferIn == nil {
-		r.Check(rule, "(*Router).handleHTTPRequest:recover frame", disp.Pos(), false, "no deferred recovering closure in the dispatcher: a handler panic escapes ServeHTTP even with OnPanic set")
-		return
+	}
+	// ancestors of the frame function: everything they run lies outside the frame
+	for _, a := range sortFns(core) {
+		if a == disp || a == cl || !cg.Reach(a)[disp] {
+			continue
+		}
+		n := 0
+		eachInstr(a, func(in ssa.Instruction) {
+			c, ok := in.(ssa.CallInstruction)
+			if !ok {
+				return
+			}
+			if _, isDefer := in.(*ssa.Defer); isDefer {
+				return
+			}
+			sc := staticCallee(c)
+			outside := false
+			what := ""
+			if isDynUser(c) {
+				outside, what = true, "a handler / hook value is called"
+			} else if sc != nil && userFn[sc] && sc != disp && !cg.Reach(sc)[disp] {
+				outside, what = true, FuncName(sc)+" (which can run user code) is called"
+			}
+			if outside {
+				n++
+				r.Check(rule, fmt.Sprintf("%s:outside the frame#%d", FuncName(a), n), w.InstrPos(in), false,
+					what+" in "+FuncName(a)+", outside the recover frame installed by "+FuncName(disp)+": a panic there escapes ServeHTTP although OnPanic is set (and it runs even after a recovered panic)")
+			}
+		})
+		r.Check(rule, FuncName(a)+":runs user code only inside the frame", a.Pos(), n == 0, fmt.Sprintf("%d call(s) that can run user code outside the frame", n))
 	}
 	hookNonNil := func(cond ssa.Value, truth bool) bool {
 		b, ok := cond.(*ssa.BinOp)
@@ -564,7 +704,7 @@ func ruleC09Frame(r *Run) {
 			}
 		}
 	}
-	r.Check(rule, "(*Router).handleHTTPRequest:frame guard", w.InstrPos(deferIn), guarded, map[bool]string{true: "recover frame installed only when OnPanic != nil (without a hook the panic propagates unchanged)", false: "recover frame is not conditional on the hook: panics are swallowed when no hook is installed"}[guarded])
+	r.Check(rule, FuncName(disp)+":frame guard", w.InstrPos(deferIn), guarded, map[bool]string{true: "recover frame installed only when OnPanic != nil (without a hook the panic propagates unchanged)", false: "recover frame is not conditional on the hook: panics are swallowed when no hook is installed"}[guarded])
 	// (2) with a hook, the frame encloses everything that can run user code
 	userCalls := callsIn(disp, func(c ssa.CallInstruction) bool {
 		if _, isDefer := c.(*ssa.Defer); isDefer {
@@ -576,7 +716,7 @@ func ruleC09Frame(r *Run) {
 			case "(*Context).Next", "(*Router).QuickMatch", "(*Context).SetHandlers":
 				return true
 			}
-			return false
+			return userFn[sc]
 		}
 		// dynamic calls of handler values
 		return !c.Common().IsInvoke() && calleeName(c) == ""
@@ -591,7 +731,7 @@ func ruleC09Frame(r *Run) {
 		ord[name]++
 		in := uc.(ssa.Instruction)
 		escapes := pathExists(disp, nil, func(x ssa.Instruction) bool { return x == in }, func(x ssa.Instruction) bool { return x == ssa.Instruction(deferIn) }, cut)
-		r.Check(rule, fmt.Sprintf("(*Router).handleHTTPRequest:enclosed %s#%d", name, ord[name]), w.InstrPos(in), !escapes,
+		r.Check(rule, fmt.Sprintf("%s:enclosed %s#%d", FuncName(disp), name, ord[name]), w.InstrPos(in), !escapes,
 			map[bool]string{true: "reached only after the recover frame is installed (when a hook is set)", false: "can run before the recover frame is installed: a panic here escapes although OnPanic is set"}[!escapes])
 	}
 	// (3) inside the closure: recover -> non-nil -> Set(CTXRecoverResult, value) -> hook exactly once
@@ -601,11 +741,11 @@ func ruleC09Frame(r *Run) {
 	hooks := callsIn(cl, func(c ssa.CallInstruction) bool {
 		return !c.Common().IsInvoke() && staticCallee(c) == nil && isLoadOfField(c.Common().Value, onPanicF)
 	})
-	r.Check(rule, "(*Router).handleHTTPRequest$recover:hook calls", cl.Pos(), len(hooks) == 1 && len(recs) == 1, fmt.Sprintf("%d hook call site(s), %d recover() call(s) in the deferred closure", len(hooks), len(recs)))
+	r.Check(rule, FuncName(disp)+"$recover:hook calls", cl.Pos(), len(hooks) == 1 && len(recs) == 1, fmt.Sprintf("%d hook call site(s), %d recover() call(s) in the deferred closure", len(hooks), len(recs)))
 	if len(hooks) == 1 && len(recs) == 1 {
 		h := hooks[0].(ssa.Instruction)
 		rv := recs[0].Value()
-		r.Check(rule, "(*Router).handleHTTPRequest$recover:hook once", w.InstrPos(h), !inLoop(h), "the hook call is not inside a loop")
+		r.Check(rule, FuncName(disp)+"$recover:hook once", w.InstrPos(h), !inLoop(h), "the hook call is not inside a loop")
 		nonNil := factHolds(h, func(cond ssa.Value, truth bool) bool {
 			b, ok := cond.(*ssa.BinOp)
 			if !ok {
@@ -616,7 +756,7 @@ func ruleC09Frame(r *Run) {
 			}
 			return false
 		})
-		r.Check(rule, "(*Router).handleHTTPRequest$recover:hook guard", w.InstrPos(h), nonNil, "hook runs only when recover() returned a non-nil value")
+		r.Check(rule, FuncName(disp)+"$recover:hook guard", w.InstrPos(h), nonNil, "hook runs only when recover() returned a non-nil value")
 		stored := false
 		for _, sc := range callsToFn(cl, setFn) {
 			a := sc.Common().Args
@@ -626,10 +766,10 @@ func ruleC09Frame(r *Run) {
 				}
 			}
 		}
-		r.Check(rule, "(*Router).handleHTTPRequest$recover:store before hook", w.InstrPos(h), stored, map[bool]string{true: "recovered value stored under CTXRecoverResult before the hook is called", false: "the hook runs without the recovered value available under CTXRecoverResult"}[stored])
+		r.Check(rule, FuncName(disp)+"$recover:store before hook", w.InstrPos(h), stored, map[bool]string{true: "recovered value stored under CTXRecoverResult before the hook is called", false: "the hook runs without the recovered value available under CTXRecoverResult"}[stored])
 		// the hook receives the request's context
 		okArg := len(hooks[0].Common().Args) == 1 && canon(hooks[0].Common().Args[0]) == canon(disp.Params[1])
-		r.Check(rule, "(*Router).handleHTTPRequest$recover:hook arg", w.InstrPos(h), okArg, "hook receives the context of the panicking request")
+		r.Check(rule, FuncName(disp)+"$recover:hook arg", w.InstrPos(h), okArg, "hook receives the context of the panicking request")
 		// no re-panic after recovery
 		rep := false
 		eachInstr(cl, func(in ssa.Instruction) {
@@ -637,7 +777,7 @@ func ruleC09Frame(r *Run) {
 				rep = true
 			}
 		})
-		r.Check(rule, "(*Router).handleHTTPRequest$recover:no re-panic", cl.Pos(), !rep, "the recovered panic is not raised again")
+		r.Check(rule, FuncName(disp)+"$recover:no re-panic", cl.Pos(), !rep, "the recovered panic is not raised again")
 	}
 }
 
@@ -645,8 +785,8 @@ func ruleC09Only(r *Run) {
 	w := r.W
 	rule := "C09-ONLY"
 	r.Floor(rule, 2)
-	disp := w.Fn("rux", "Router.handleHTTPRequest")
 	cg := w.BuildCG()
+	_, _, frameCl, _ := findFrame(w, cg)
 	core := cg.Reach(w.Fn("rux", "Router.ServeHTTP"), w.Fn("rux", "Router.HandleContext"))
 	// plus Context.Next (the executor) and everything it statically reaches
 	for f := range cg.Reach(w.Fn("rux", "Context.Next")) {
@@ -659,7 +799,7 @@ func ruleC09Only(r *Run) {
 			continue
 		}
 		n++
-		ok := f.Parent() == disp
+		ok := frameCl != nil && f == frameCl
 		r.Check(rule, FuncName(f)+":recover", w.InstrPos(recs[0]), ok, map[bool]string{true: "the dispatcher's hook-guarded frame (C09-FRAME)", false: "a second recover in rux's request path swallows panics or lets the chain resume"}[ok])
 	}
 	r.Exists(rule, "recover sites in the request core", token.NoPos, n >= 1, fmt.Sprintf("%d recovering function(s) among %d request-core functions", n, len(core)))
